@@ -53,4 +53,15 @@ var metas = map[string]*checkMeta{
 		Faults:      []string{"fault_cut", "fault_read_error", "fault_write_error", "fault_short_write", "fault_close", "torn_files_read", "short_reads", "one_byte_reads"},
 		Probes:      []string{"workloads_rtmp", "workloads_flv", "error_nestings", "fault_positions_rtmp_cut", "fault_positions_rtmp_rerr", "fault_positions_rtmp_werr", "fault_positions_rtmp_short", "fault_positions_rtmp_close", "fault_positions_flv_cut", "fault_positions_flv_rerr", "fault_positions_flv_werr", "fault_positions_flv_short"},
 	},
+	"C02": {
+		ID: "C02", Level: "exploration",
+		Phases: []phase{{Name: "chunker", Pkg: "checks/c02",
+			Quick: tierCfg{Count: 4000, Budget: 60 * time.Second},
+			Thor:  tierCfg{Count: 400000, Budget: 20 * time.Minute}}},
+		Rule: "plan = messages queued on up to 6 chunk streams (ids from {2,3,4,5,63,64,65,100,319,320,321,1000,65598,65599,random} in 1/2/3-byte basic-header form), requested header type 0..3 per message (degraded to a legal one), absolute timestamps producing deltas around 0/0xFFFFFE/0xFFFFFF/0x1000000 and backward jumps, lengths straddling the chunk size, Set Chunk Size messages in between, tape-chosen chunk-level interleaving and read segmentation; 32% of plans inject one rule-breaking chunk (type 0 inside an unfinished message, length changed mid-message, fresh chunk stream starting with type 1/2/3) or the librtmp 0x42 ping form. Non-trivial = at least one message or an injected chunk. Distinct = distinct plan bodies.",
+		Components: map[string]string{"rtmp.Protocol.ReadMessage": "real", "peer": "reference RTMP 1.0 chunker (ref/chunker.go, stub written from the spec), cross-checked per run by the reference parser", "transport": "sim reader (segmentation, EOF)"},
+		Assumptions: append([]string{"type-3 chunks carry the extended timestamp when the stream's most recent type 0/1/2 header had one (RTMP 1.0 section 5.3.1.3)", "a type-3 header starting a new message right after a type-0 header uses that header's timestamp as its delta (section 5.3.1.2.4)"}, stdAssume...),
+		Faults:      []string{"short_reads", "one_byte_reads", "rule_breaking_trace_kind1", "rule_breaking_trace_kind2", "rule_breaking_trace_kind3", "rule_breaking_trace_kind4"},
+		Probes:      []string{"msgs_started_with_type0", "msgs_started_with_type1", "msgs_started_with_type2", "msgs_started_with_type3", "chunks_with_extended_timestamp", "type3_chunks_with_extended_timestamp", "basic_header_2byte", "basic_header_3byte", "interleaved_chunks"},
+	},
 }
